@@ -39,6 +39,8 @@ def show(s: dict) -> str:
         o.append("props")
     if s["fmt"]:
         o.append(s["fmt"])
+    if s.get("df"):
+        o.append("default")
     return "{" + " ".join(o) + "}"
 
 
@@ -65,7 +67,22 @@ def concretize(s: dict) -> dict:
         o["properties"] = {"inner": S}
     if "array" in s["ts"]:
         o["items"] = S
+    if s.get("df"):
+        o["default"] = _default_value(s)
     return o
+
+
+def _default_value(s: dict):
+    """A value of the spelling's type: 1 where an integer is admitted, a date for dates, "a" for strings and string enums."""
+    if "integer" in s["ts"] or "i1" in s["en"]:
+        return 1
+    if s["fmt"] == "date":
+        return "2020-01-02"
+    for m in s["one"] + s["any"] + s["all"]:
+        v = _default_value(m)
+        if v != "a":
+            return v
+    return "a"
 
 
 def is_bare_ref(s: dict) -> bool:
@@ -123,10 +140,10 @@ def _path(name: str, root: str) -> list[int]:
 def project(prop, root: str = "p") -> dict:
     n = type(prop).__name__
     p = _path(prop.name, root)
-    d = {"k": "?", "p": p, "m": [], "v": []}
+    d = {"k": "?", "p": p, "m": [], "v": [], "df": getattr(prop, "default", None) is not None and n != "NoneProperty"}
     if n == "UnionProperty":
         d["k"] = "union"
-        d["m"] = [project(x, root) for x in prop.inner_properties]
+        d["m"] = [dict(project(x, root), df=False) for x in prop.inner_properties]          # members' defaults are never used
         return d
     if n in ("EnumProperty", "LiteralEnumProperty"):
         cname = str(prop.class_info.name)
@@ -165,9 +182,9 @@ def real_outcome(s: dict, literal_enums: bool = False) -> dict:
         with gen.time_limit(20):
             prop, _ = property_from_data(name="p", required=True, data=data, schemas=schemas, parent_name="Holder", config=cfg)
     except Exception as e:  # noqa: BLE001
-        return {"k": "crash:" + type(e).__name__, "p": [], "m": [], "v": []}
+        return {"k": "crash:" + type(e).__name__, "p": [], "m": [], "v": [], "df": False}
     if type(prop).__name__ == "PropertyError":
-        return {"k": "err", "p": [], "m": [], "v": []}
+        return {"k": "err", "p": [], "m": [], "v": [], "df": False}
     d = project(prop)
     if d["k"] == "union" and not d["p"]:
         pass
